@@ -78,11 +78,13 @@ type World struct {
 	verOrd       map[string]int // record key -> number of successful writes (normalised version)
 
 	panics     []string // reconciles that panicked
+	overrun    bool     // the last drain did not end
 	handlers   map[string]*Handler
 	hOrder     []string
 	Trace      *Trace
 	stepNo     int
 	healN      int
+	usedConn   map[string]bool
 	cleanSince map[string]bool
 }
 
@@ -945,7 +947,10 @@ func (w *World) DrainWith(maxSteps int, pol string) (spin bool, err error) {
 			}
 		}
 	}
-	return false, fmt.Errorf("infra: drain did not reach quiescence within %d steps", maxSteps)
+	// The real controllers keep performing effects for ever: an observation (the drain line says so), not a failure
+	// of the harness.
+	w.overrun = true
+	return false, nil
 }
 
 // Probe is the real-code form of "quiescent is a fixed point": reconcile every transaction,
